@@ -41,7 +41,7 @@ type panicStruct struct{ A int }
 
 type callSpec struct {
 	Outs  []int // per output: 0 no correlation id, 1 has its own correlation id
-	Err   int   // 0 nil, 1 listed, 2 unlisted, 3 errors.Wrap(listed), 4 fmt %w listed (not demanded: treated as unlisted by IgnoreErrors docs)
+	Err   int   // 0 nil, 1 listed, 2 unlisted, 3 errors.Wrap(listed), 4 fmt %w (not generated: not demanded, IgnoreErrors documents errors.Cause), 5-7 errors.Wrap/WithMessage/WithStack(unlisted)
 	Panic int   // 0 none, 1 string, 2 error, 3 struct, 4 nil
 }
 
@@ -95,6 +95,12 @@ func (s *script) handler(msg *message.Message) ([]*message.Message, error) {
 		o.err = errors.Wrap(listedErr, "wrapped")
 	case 4:
 		o.err = fmt.Errorf("w-wrapped: %w", unlistedErr)
+	case 5: // pkg/errors wrappers around an error that is NOT listed: must come back as they are
+		o.err = errors.Wrap(unlistedErr, "wrapped")
+	case 6:
+		o.err = errors.WithMessage(unlistedErr, "with message")
+	case 7:
+		o.err = errors.WithStack(unlistedErr)
 	}
 	return o.outs, o.err
 }
@@ -277,7 +283,7 @@ func genCase(t *rapid.T) caseT {
 		switch rapid.IntRange(0, 5).Draw(t, "outcome") {
 		case 0, 1:
 		case 2, 3:
-			sp.Err = rapid.IntRange(1, 3).Draw(t, "errKind")
+			sp.Err = rapid.SampledFrom([]int{1, 2, 3, 5, 6, 7}).Draw(t, "errKind")
 		case 4:
 			sp.Panic = rapid.IntRange(1, 4).Draw(t, "panicKind")
 		case 5:
